@@ -298,8 +298,8 @@ func c05Presentable(t uint16, s *wire.Spec, vals []wire.Val) bool {
 		if len(get("Hit").B) == 0 || len(get("PublicKey").B) == 0 {
 			return false
 		}
-	case 50: // NSEC3: the presentation format has no length for the next hashed owner; the only defined hash (SHA-1) gives 20 octets
-		if len(get("NextDomain").B) != 20 {
+	case 50: // NSEC3: an empty next hashed owner has no spelling; any other length is carried by the base32hex text
+		if len(get("NextDomain").B) == 0 {
 			return false
 		}
 	case 27: // GPOS: RFC 1712 strings are real numbers; the parser insists on that too
@@ -445,6 +445,49 @@ func c05Spaces(c *fw.Ctx) {
 				})
 		}
 	}
+
+	c.Space("loc-milliseconds", "LOC: every millisecond value 0..59999 of the seconds field, in latitude (north and south, at 0° 0′ and at 89° 59′) and longitude (east and west, at 0° 0′ and at 179° 59′): wire → String → NewRR → wire identical, and read the same by the reference reader; 100 values per case; non-trivial: all", true,
+		func(emit func(func(*fw.R))) {
+			s := wire.Specs[29]
+			for base := 0; base < 60000; base += 100 {
+				base := base
+				emit(func(r *fw.R) {
+					r.Nontrivial()
+					for ms := base; ms < base+100; ms++ {
+						for variant := 0; variant < 4; variant++ {
+							lat, lon := uint64(ms), uint64(ms)
+							if variant&2 != 0 {
+								lat += 89*3600000 + 59*60000
+								lon += 179*3600000 + 59*60000
+							}
+							la, lo := uint64(1<<31)+lat, uint64(1<<31)+lon
+							if variant&1 != 0 {
+								la, lo = uint64(1<<31)-lat, uint64(1<<31)-lon
+							}
+							vals := make([]wire.Val, len(s.Fields))
+							for i, f := range s.Fields {
+								switch f.Go {
+								case "Size":
+									vals[i].U = 0x12
+								case "HorizPre":
+									vals[i].U = 0x16
+								case "VertPre":
+									vals[i].U = 0x13
+								case "Latitude":
+									vals[i].U = la
+								case "Longitude":
+									vals[i].U = lo
+								case "Altitude":
+									vals[i].U = 10000000
+								}
+							}
+							c05RR(r, &wire.RR{Name: enum.Names[0], Type: 29, Class: 1, TTL: 60, Vals: vals}, "LOC")
+						}
+					}
+					r.Count("records", 400)
+				})
+			}
+		})
 
 	c.Space("owner-class-ttl", "an A, an MX and a TXT record × every owner of the name alphabet × classes {1,3,4,254,255,0,2,65535} × TTLs {0,1,3600,2^31,2^32-1}; non-trivial: all", true,
 		func(emit func(func(*fw.R))) {
